@@ -791,6 +791,8 @@ class Interp(object):
             bm = BUILTIN_MODELS.get(cls)
             if bm is not None and _has_sym(args, kwargs):
                 return bm(self, *args, **kwargs)
+            if issubclass(cls, BaseException) and _has_sym(args, kwargs):
+                return cls(*args, **kwargs)       # exception constructors only store their arguments
             return self.call_native(cls, args, kwargs)
         return self.type_call(cls, args, kwargs)
 
